@@ -59,7 +59,7 @@ def emit(cases, rng, x, n):
 
 def generate(rng, tier):
     cases = []
-    reps = 6 if tier == "thorough" else 1
+    reps = 10 if tier == "thorough" else 1
     regimes = [1, 2, 8, 31, 32, 33, 63, 64, 65, 66, 100, 127, 128, 129, 200, 500, 1000, 1023, 1024, 1025,
                1100, 1500, 2100]
     for _ in range(reps):
